@@ -57,9 +57,13 @@ class C09(Prop):
             "random}) then the validated forwarder configuration (transport id, max, length-prefix flag, displayed address). (F) one flush of "
             "State through the synchronous forwarder stand-in: at most one counter/gauge/histogram, names from the telemetry prefix, its near "
             "misses and random strings, both aggregation modes (injected clock), global prefix incl. the telemetry prefix itself. "
-            "Non-trivial = a payload was yielded / a point dropped / a builder op ran; distinct = distinct (case, outputs). Thorough adds the "
-            "end-to-end engine: 6 real exporters on a harness UnixListener over >= 3 flush intervals (stream split by LE32 prefixes, every "
-            "frame parsed) and 6 real build() calls.")
+            "Flush-case and end-to-end metric names are drawn in RELATION to the global prefix (equal to it, starting with it with / without a "
+            "'.' boundary, a prefix of it, empty; prefixes app / a / svc.api / empty / the telemetry namespace / datadog.dogstatsd / none / random), "
+            "plus the telemetry namespace (exact, '.'-extended, extended without boundary) and its near misses; the distribution is in "
+            "coverage.name_prefix_relations. Non-trivial = a payload was yielded / a point dropped / a builder op ran; distinct = distinct "
+            "(case, outputs). Both tiers run the end-to-end engine: real exporters built by DogStatsDBuilder on a harness UnixListener over "
+            ">= 3 flush intervals (quick 4, thorough 16; 8 metrics of all three kinds each, stream split by LE32 prefixes, every frame parsed, "
+            "names compared with WSpec.e2e_name) and 6 real build() calls.")
     level_text = ("Theorems (Coq, all op sequences, all maxima, both framing modes, all prefixes/labels/value strings): the executable "
                   "specification accepts every output of the writer model (C09_spec_ok_on_model, unconditional) and acceptance means SpecP "
                   "(C09_spec_ok_sound): WriteResults determined by which values fit, each drain yields the first k frames of the payloads "
@@ -69,13 +73,15 @@ class C09(Prop):
                   "C09_point_conservation (one write call), C09_message_roundtrip (parser reads back every rendered message). Wiring: address parsing equals the documented scheme table "
                   "(C09_addr_*), the builder equals its reference semantics and accepted lengths respect the transport limit, length prefix "
                   "iff unix stream (C09_builder_*), telemetry names are never prefixed, one flush never panics and its output passes the flush specification "
-                  "(C09_telemetry_prefix_bypass, C09_flush_total, C09_flush_spec_ok_on_model). The code as found is refuted clause by clause (C09_*_refuted_before_fix*). Models are tied to /repo by "
+                  "(C09_telemetry_prefix_bypass, C09_flush_total, C09_flush_spec_ok_on_model); every payload of a flush is the frame of the message of "
+                  "one registered metric whose name is <global prefix>.<registered name>, or the registered name itself for telemetry-namespace "
+                  "names (C09_e2e_name_is_prefixed). The code as found is refuted clause by clause (C09_*_refuted_before_fix*). Models are tied to /repo by "
                   "running the real code and the model on the same generated cases each run, byte for byte.")
     level_note = ("spec_ok_on_model is proved for all three case kinds (C09_xspec_ok_on_model). C09_spec_ok_sound is one direction "
                   "(acceptance implies SpecP), not an equivalence. Trusted: Coq kernel; hand-written models tied by differential runs; itoa/ryu "
                   "number formatting and std's to_socket_addrs are oracles (echoed by the driver); usize arithmetic other than the subtraction "
-                  "in current_len assumed not to wrap; build() itself (thread spawn) is exercised only by the thorough end-to-end engine, the "
-                  "quick tier goes through the cfg(metrics_verif) hook verif_forwarder_config that repeats build()'s validation; histogram "
+                  "in current_len assumed not to wrap; build() itself (thread spawn) is exercised only by the end-to-end engine (6 calls and 4 / 16 exporters per run), the "
+                  "generated builder cases go through the cfg(metrics_verif) hook verif_forwarder_config that repeats build()'s validation; histogram "
                   "storage order (AtomicBucket) is avoided by recording equal values. Names, tags or prefixes containing : | , # newline are "
                   "emitted unescaped; the message clause is stated under delimiter-freeness (wf_msg) and is vacuous for such inputs.")
     assumptions = ["itoa/ryu render the numbers; the rendered strings are non-empty and are passed to the model as data (python checks that each reads back to the same value)",
@@ -187,15 +193,66 @@ class C09(Prop):
                 ops.append(["m", rng.pick(self.MAXES) if rng.chance(3, 4) else rng.below(1 << rng.range(1, 64))])
         return dict(kind="B", ops=ops)
 
+    NS = "datadog.dogstatsd.client"
+    REL_FAMILIES = ["equal", "prefix_dot", "prefix_no_boundary", "name_prefix_of_prefix", "telemetry_ns", "telemetry_near_miss",
+                    "unrelated"]
+    E2E_PREFIXES = ["app", "a", "svc.api", "", "datadog.dogstatsd.client", "datadog.dogstatsd", None]
+
+    @classmethod
+    def rel(cls, prefix, name):
+        """relation between a global prefix and a registered metric name (for generation and the coverage report)"""
+        if name.startswith(cls.NS):
+            rest = name[len(cls.NS):]
+            return "telemetry_ns_exact" if rest == "" else "telemetry_ns_dot" if rest[0] == "." else "telemetry_ns_no_boundary"
+        if cls.NS.startswith(name) and name != "" or name.lower().lstrip("x").startswith(cls.NS[:17]):
+            near = True
+        else:
+            near = False
+        if prefix is None:
+            return "no_prefix_telemetry_near_miss" if near else "no_prefix"
+        if prefix == "":
+            return "empty_prefix"
+        if name == prefix:
+            return "equal"
+        if name.startswith(prefix + "."):
+            return "starts_with_prefix_dot"
+        if name.startswith(prefix):
+            return "starts_with_prefix_no_boundary"
+        if prefix.startswith(name):
+            return "name_is_prefix_of_prefix"
+        return "telemetry_near_miss" if near else "unrelated"
+
+    def _related_name(self, rng, prefix, fam):
+        tail = rng.pick(["le.requests", "lication.x", "x", "s", "_total", "1"])
+        p = prefix or ""
+        if fam == "equal":
+            return p
+        if fam == "prefix_dot":
+            return p + "." + rng.pick(["y", "uptime_seconds", "a.b", ""])
+        if fam == "prefix_no_boundary":
+            return p + tail
+        if fam == "name_prefix_of_prefix":
+            return p[:rng.below(len(p))] if p else ""
+        if fam == "telemetry_ns":
+            return self.NS + rng.pick(["", ".x", ".packets_sent", "x", "ele", "_y"])
+        if fam == "telemetry_near_miss":
+            return rng.pick(["datadog.dogstatsd", "datadog.dogstatsd.clien", "xdatadog.dogstatsd.client", "Datadog.dogstatsd.client.y",
+                             "datadog.dogstatsd.clienT", "datadog.dogstatsd."])
+        return rng.pick(["req.count", "zzz", "q", "lat", "temp"])
+
     def gen_flush(self, rng):
         adversarial = rng.chance(1, 8)
         mx = rng.weighted([(6, rng.range(20, 90)), (2, 1432), (2, 8192), (1, rng.range(0, 20))])
-        pfx = rng.weighted([(2, None), (3, self._str(rng, 1, 6, adversarial)), (1, "datadog.dogstatsd.client")])
+        pfx = rng.weighted([(2, None), (2, "app"), (1, "a"), (1, "svc.api"), (1, ""), (1, self.NS), (1, "datadog.dogstatsd"),
+                            (3, self._str(rng, 1, 6, adversarial))])
         ms = []
         for k in rng.shuffle("cgh"):
             if not rng.chance(3, 4):
                 continue
-            name = rng.pick(self.FNAMES) if rng.chance(4, 5) else self._str(rng, 0, 30, adversarial)
+            if rng.chance(5, 6):
+                name = self._related_name(rng, pfx, rng.pick(self.REL_FAMILIES))
+            else:
+                name = self._str(rng, 0, 30, adversarial)
             labels = self._labels(rng, 3, adversarial)
             if k == "c":
                 ms.append(["c", name, labels, [rng.pick(U64S) if rng.chance(1, 3) else rng.below(1000) for _ in range(rng.range(0, 3))]])
@@ -218,6 +275,14 @@ class C09(Prop):
                 out.append(self.gen_flush(rng))
             else:
                 out.append(self.gen_one(rng, big))
+        if getattr(self, "_rel_flush", None) is None:     # the main batch of a run (later calls are directed searches)
+            rel = {}
+            for c in out:
+                if c.get("kind") == "F":
+                    for m in c["ms"]:
+                        k = "%s/%s" % (self.rel(c["prefix"], m[1]), m[0])
+                        rel[k] = rel.get(k, 0) + 1
+            self._rel_flush = rel
         return out
 
     # ------------------------------------------------------------------ driver protocol
@@ -436,7 +501,7 @@ class C09(Prop):
         cc = {k: v for k, v in c.items() if k != "fmt"}
         return [cc, out]
 
-    # ------------------------------------------------------------------ end-to-end engine (thorough)
+    # ------------------------------------------------------------------ end-to-end engine (quick: 4 exporters; thorough: 16 + build() calls)
     E2E = [  # max, prefix, telemetry, aggressive, cycles, interval ms
         (None, None, 1, 0, 4, 80), (70, "srv", 1, 1, 4, 80), (64, None, 0, 0, 5, 60), (1432, "a.b", 0, 1, 4, 80),
         (48, "p", 1, 0, 4, 80), (8192, "datadog.dogstatsd.client", 1, 1, 3, 80),
@@ -452,13 +517,38 @@ class C09(Prop):
         ([["a", "unix:///tmp/c09-nonexistent.sock"], ["m", TWO32]], "early"),
     ]
 
+    def _e2e_generated(self, rng, count):
+        """exporter scenarios whose metric names are drawn in relation to the global prefix (all families, all kinds)"""
+        non_none = rng.shuffle([p for p in self.E2E_PREFIXES if p is not None])
+        prefixes = (non_none + [None] + non_none)[:count] if count > 3 else non_none[:count]
+        if count > 3:
+            prefixes[3] = rng.pick([None, non_none[3]])
+        out = []
+        for pfx in prefixes:
+            kinds = "cgh"
+            off = rng.below(3)
+            ms = []
+            for i, fam in enumerate(rng.shuffle(self.REL_FAMILIES + [rng.pick(self.REL_FAMILIES[:4])])):
+                ms.append([kinds[(i + off) % 3], self._related_name(rng, pfx, fam)])
+            out.append(dict(max=rng.pick([None, 1432]), prefix=pfx, telemetry=rng.below(2), aggressive=rng.below(2), cycles=3,
+                            interval=50, metrics=ms, dist=rng.below(2)))
+        return out
+
     def extra_checks(self, ctx):
-        if ctx["tier"] != "thorough":
-            return []
         from . import core
         import os
+        import re
+        thorough = ctx["tier"] == "thorough"
+        rng = ctx["rng"].fork()
         binpath = core.harness_build(self.pkg, "c09e2e")
-        lines = ["%s %s %d %d %d %d" % ("-" if m is None else m, "-" if p is None else "+" + hexs(p), t, a, c, i) for m, p, t, a, c, i in self.E2E]
+        scen = self._e2e_generated(rng, 10 if thorough else 4)
+        if thorough:
+            scen += [dict(max=m, prefix=p, telemetry=t, aggressive=a, cycles=c, interval=i, metrics=None, dist=0) for m, p, t, a, c, i in self.E2E]
+        lines = []
+        for sc in scen:
+            ms = "-" if sc["metrics"] is None else ",".join("%s:%s" % (k, hexs(n)) for k, n in sc["metrics"])
+            lines.append("%s %s %d %d %d %d %s %d" % ("-" if sc["max"] is None else sc["max"], "-" if sc["prefix"] is None else "+" + hexs(sc["prefix"]),
+                                                     sc["telemetry"], sc["aggressive"], sc["cycles"], sc["interval"], ms, sc["dist"]))
         rc, outs, err = core.run_impl(binpath, lines, timeout=300)
         if rc != 0 or len(outs) != len(lines):
             raise MachineryBroken("c09e2e: rc=%s, %d lines for %d scenarios\n%s" % (rc, len(outs), len(lines), err[-2000:]))
@@ -472,10 +562,11 @@ class C09(Prop):
                 viol.append(("e2e", "DogStatsDBuilder::build() returned %r where the documented limits require %r" % (got, want),
                              dict(builder_ops=ops, got=got, want=want)))
         ctx["coverage"]["e2e_build_calls"] = len(blines)
-        for k, (sc, line, o) in enumerate(zip(self.E2E, lines, outs)):
-            mx = 8192 if sc[0] is None else sc[0]
+        rel = {}
+        for k, (sc, line, o) in enumerate(zip(scen, lines, outs)):
+            mx = 8192 if sc["max"] is None else sc["max"]
             if o.startswith("ERR") or o == "-":
-                viol.append(("e2e", "end-to-end scenario produced no stream: %s" % o[:200], dict(scenario=line, out=o[:400])))
+                viol.append(("e2e", "end-to-end scenario produced no stream: %s" % o[:200], dict(scenario=sc, driver_line=line, out=o[:400])))
                 continue
             data = bytes.fromhex(o)
             pos, bodies, bad = 0, [], None
@@ -490,14 +581,21 @@ class C09(Prop):
                 bodies.append(data[pos + 4:pos + 4 + n])
                 pos += 4 + n
             if bad:
-                viol.append(("e2e", "unix-stream framing broken: " + bad, dict(scenario=line, stream=o[:4000])))
+                viol.append(("e2e", "unix-stream framing broken: " + bad, dict(scenario=sc, driver_line=line, stream=o[:4000])))
                 continue
             frames_total += len(bodies)
-            full = lambda nm: nm if sc[1] is None else sc[1] + "." + nm
-            allowed = [full(x) for x in ("reqs", "temp", "lat", self.LONG)]
-            must = [full(x) for x in ("reqs", "temp", "lat") if len(full(x)) + 30 <= mx]
-            terms.append((k, line, o, "e2e_ok %s %s %s (%s, %s) %s" % (
-                cq_N(mx), cq_list([self._hx(hexs(x)) for x in allowed]), cq_list([self._hx(hexs(x)) for x in must]),
+            if sc["metrics"] is None:
+                names = ["reqs", "temp", "lat", self.LONG]
+                must = [x for x in ("reqs", "temp", "lat") if len(sc["prefix"] or "") + 1 + len(x) + 30 <= mx]
+            else:
+                names = [n for _, n in sc["metrics"]]
+                must = names
+                for kd, n in sc["metrics"]:
+                    key = "%s/%s" % (self.rel(sc["prefix"], n), kd)
+                    rel[key] = rel.get(key, 0) + 1
+            gp = cq_opt(None if sc["prefix"] is None else self._hx(hexs(sc["prefix"])))
+            terms.append((sc, line, bodies, "e2e_names_ok %s %s %s %s (%s, %s) %s" % (
+                cq_N(mx), gp, cq_list([self._hx(hexs(x)) for x in names]), cq_list([self._hx(hexs(x)) for x in must]),
                 self._hx(hexs("env")), self._hx(hexs("e2e")), cq_list([self._hx(b.hex()) for b in bodies]))))
         if terms:
             d = os.path.join(core.CACHE, "cases", self.pid)
@@ -512,16 +610,24 @@ class C09(Prop):
                     os.remove(path[:-2] + ext)
                 except OSError:
                     pass
-            import re
             res = re.findall(r"\b(true|false)\b", out.split(":")[0]) if rc == 0 else []
             if rc != 0 or len(res) != len(terms):
                 raise MachineryBroken("e2e evaluation failed:\n" + out[-2000:])
-            for (k, line, o, _), r in zip(terms, res):
+            for (sc, line, bodies, _), r in zip(terms, res):
                 if r != "true":
-                    viol.append(("e2e", "a frame received on the unix-stream socket is over the limit, does not parse as the expected DogStatsD message, or an expected metric never arrived",
-                                 dict(scenario=line, stream=o[:6000])))
-        ctx["coverage"]["e2e_scenarios"] = len(self.E2E)
+                    got = sorted(set(b.split(b":")[0].decode("utf-8", "replace") for b in bodies))
+                    want = None
+                    if sc["metrics"] is not None:
+                        want = sorted(set(n if n.startswith(self.NS) or sc["prefix"] is None else sc["prefix"] + "." + n for _, n in sc["metrics"]))
+                    viol.append(("e2e", "exporter end to end (DogStatsDBuilder -> State::flush -> writer -> unix stream): a received frame is over the limit, "
+                                        "does not parse, carries a name that is not <global prefix>.<registered name> (telemetry-namespace names unprefixed), "
+                                        "lacks the global label, or an expected metric never arrived",
+                                 dict(scenario=sc, driver_line=line, names_received=got, names_expected=want,
+                                      frames=[b.decode("utf-8", "replace") for b in bodies[:40]])))
+        ctx["coverage"]["e2e_scenarios"] = len(scen)
         ctx["coverage"]["e2e_frames"] = frames_total
+        ctx["coverage"]["name_prefix_relations"] = dict(flush_cases=dict(sorted((getattr(self, "_rel_flush", None) or {}).items())),
+                                                        e2e_metrics=dict(sorted(rel.items())))
         return viol
 
     # ------------------------------------------------------------------ shrinking
